@@ -61,7 +61,10 @@ impl StatSlot for ConcurrencyStatSlot {
                 let metric = tc.metric();
                 match metric.concurrency_counter.get(&arg) {
                     Some(counter) => {
-                        counter.fetch_sub(1, Ordering::SeqCst);
+                        // the cell may have been evicted and re-created since this entry
+                        // was counted: never let it wrap below zero
+                        let _ = counter
+                            .fetch_update(Ordering::SeqCst, Ordering::SeqCst, |v| v.checked_sub(1));
                     }
                     None => {
                         logging::debug!("[ConcurrencyStatSlot on_entry_passed] Parameter does not exist in ConcurrencyCounter., argument: {:?}", arg);
